@@ -9,6 +9,7 @@ import errno
 from gunicorn.config import Config
 from gunicorn.http import RequestParser
 from gunicorn.http.errors import NoMoreData
+from simkit.core import HarnessError
 
 _CFG_CACHE = {}
 
@@ -36,7 +37,7 @@ class CutSock:
            (the peer keeps repeating `filler` for ever - the lazy-peer meter of C12)
     """
 
-    def __init__(self, data, cuts=(), end="eof", filler=b"", meter_cap=None):
+    def __init__(self, data, cuts=(), end="eof", filler=b"", meter_cap=None, lazy_chunk=8192):
         self.data = data
         self.cuts = list(cuts)
         self.ci = 0
@@ -46,6 +47,7 @@ class CutSock:
         self.recvs = 0
         self.meter_cap = meter_cap
         self.capped = False
+        self.lazy_chunk = lazy_chunk
         self.probes = set()
 
     def recv(self, n):
@@ -59,8 +61,9 @@ class CutSock:
             if self.meter_cap is not None and self.pos >= self.meter_cap:
                 self.capped = True
                 return b""
-            k = min(n, max(1, len(self.filler)))
-            out = (self.filler * (k // max(1, len(self.filler)) + 1))[:k]
+            k = min(n, self.lazy_chunk)
+            off = (self.pos - len(self.data)) % len(self.filler)
+            out = (self.filler[off:] + self.filler * (k // len(self.filler) + 1))[:k]
             self.pos += len(out)
             return out
         while self.ci < len(self.cuts) and self.cuts[self.ci] <= self.pos:
@@ -112,11 +115,14 @@ def observe(cfg, data, cuts=(), end="eof", peer=("10.0.0.9", 4321), max_requests
             return obs, ("incomplete", phase), sock
         except ConnectionResetError:
             return obs, ("reset",), sock
+        except HarnessError:
+            raise
         except Exception as e:
             return obs, ("reject", type(e).__name__, phase), sock
         o = {"start": start, "method": req.method, "uri": req.uri, "version": req.version,
              "headers": list(req.headers), "body": None, "trailers": None, "end": None,
              "close": None, "req": req}
+        o["head_end"] = consumed_offset(parser, sock)
         obs.append(o)
         phase = "body"
         try:
@@ -129,6 +135,8 @@ def observe(cfg, data, cuts=(), end="eof", peer=("10.0.0.9", 4321), max_requests
             return obs, ("incomplete", phase), sock
         except ConnectionResetError:
             return obs, ("reset",), sock
+        except HarnessError:
+            raise
         except Exception as e:
             return obs, ("reject", type(e).__name__, phase), sock
         o["trailers"] = list(req.trailers)
